@@ -195,7 +195,15 @@ func (bg *BondgoCheck) Create_Bondmachine(rsize int, filter string) (*bondmachin
 	for _, _ = range creqs {
 		bmach.Add_shared_objects([]string{"channel:"})
 	}
-	for chanid, creq := range creqs {
+	// Channels are connected in the order of their ids: the position of a channel among the shared
+	// objects of a processor is what the chN operands of its code refer to
+	chanids := make([]int, 0, len(creqs))
+	for chanid := range creqs {
+		chanids = append(chanids, chanid)
+	}
+	sort.Ints(chanids)
+	for _, chanid := range chanids {
+		creq := creqs[chanid]
 		for _, proc_id := range creq.Connected {
 			endpoints := make([]string, 2)
 			endpoints[0] = strconv.Itoa(proc_id)
